@@ -47,6 +47,7 @@ import DemesVerif.Proofs.MsRTNormExamples
 import DemesVerif.Proofs.MsAccExamples
 import DemesVerif.Proofs.MsAccValidators
 import DemesVerif.Proofs.MsNamesExamples
+import DemesVerif.Proofs.MsGrowExamples
 import DemesVerif.Theorems.TablesMsModel
 namespace Demes.Theorems
 open Demes Demes.Ms Demes.Spec.C09
@@ -626,6 +627,214 @@ example : ∃ args pr σ s, parseKnownArgs Proofs.MsAcc.exTokens = .ok args ∧ 
       | ok σ =>
         obtain ⟨s, hs⟩ := buildState_never_raises (by decide +kernel) hag hr
         exact ⟨args, pr, σ, s, rfl, rfl, hag, hr, hs⟩
+
+/-! ## 8. Graph → ms → graph with exponential epochs (first sentence, "up to the precision of the printed numbers")
+
+§§5–6 need `ConstSizes`.  Here exponential epochs are allowed.  `to_ms` prints an exponential epoch as `-g i α` /
+`-eg t i α`, `α = -ln(start/end)/dt` in `4·N0` units — the symbolic `Growth` of the Model, turned into characters
+by a printer `sa : Growth → String` that is outside the Model (`float_str` of a double).  The parsers read the
+string back as the rational `growthVal sa G`, and `from_ms` rebuilds the older size of the epoch as
+`size · exp(-α'·Δt)`.  The hypothesis on the printer is `Spec.C09.GrowthPrinter sa (epochGrowths g N0)`: on the
+growth rates of the epochs of `g`, the printed string reads as a finite number (`float`), is an argument for
+argparse (`printed_numbers_are_not_flags`: not taken for an option), the rate `0` is printed as a string that
+reads as `0`, and the printed value depends on the real number only (`Growth.eq`).
+
+**What is proved.**  Everything that does not depend on the VALUE of a growth rate is exact
+(`ms_roundtrip_growth_accepts`, `ms_roundtrip_growth_sem_all`): `from_ms` accepts the command; the returned graph
+has the populations of `g` in the same order with the same lifetimes, the same migration step function and the
+same lineage movements; and its size function is that of `g` with every growth rate replaced by its printed
+value — `Spec.C09.regrow`: each exponential epoch grows at the printed rate from the size at its recent end,
+which is exact where `-en` sets it (at a jump of the size, and at a deme's recent end) and is the size reached
+where the size is continuous.  Hence (`SemRefinesUpToGrowth`) the sizes are those of `g` at every time `exactAt`:
+throughout the constant epochs that are not preceded — towards the present, since the last jump of the size — by
+an exponential epoch, and at the recent end of the first exponential epoch of such a run.  The real-number
+estimate for the other times (relative error at most `exp(ε·Δ) - 1`) is `Theorems/C09Real.lean`.
+
+**What is false** (`growth_roundtrip_sizes_counterexample`, `…_boundaries_…`, `…_zero_…`, `…_congr_…`): the sizes do
+not come back exactly — not even those of a constant epoch that is older than an exponential one with a
+continuous junction (no `-en` is printed there; the real library returns `300.0000000245671` for `300`); the epoch
+boundaries do not come back when two rates are printed alike; `GrowthPrinter.zero` and `.congr` cannot be
+dropped. -/
+
+open Demes.Proofs.MsGrow (growHyps acceptedV roundTripAgainstV roundTripEpochs shrink saShrink twoRates saSame eqRates
+  saLn2 saIncongr saBadZero)
+open Demes.Proofs.MsGrow.MigExample (growBranch1)
+
+/-- **The bridge with growth rates.**  For a valid ms-expressible graph (exponential epochs allowed), `N0 > 0`,
+well-formed `samples`, a number codec that covers the numbers of the command and a growth printer: the typed
+command reads back as a command `cmd` to which the typed interpreter gives a meaning `semG`; the printed command
+line is plain; and the string interpreter gives it the meaning `embedSemV (growthVal sa) N0 semG` — the update
+lists of `semG` evaluated into segments with every symbolic growth rate `G` read as `growthVal sa G`, the matrix
+snapshots run-length encoded, the lineage movements unchanged. -/
+theorem toMs_msSem_bridge_growth (c : NumCodec) (sa : Growth → String) {g : Graph} (hv : Spec.validGraph g = true)
+    (hx : MsExpressible g = true) {N0 : Q} (hN : 0 < N0)
+    {samples : Option (List Int)} (hs : samplesOk g samples = true) {toks : List (Tok Growth)}
+    (htoks : toMs g N0 samples = .ok toks) (hc : CodecCovers c toks)
+    (hsa : GrowthPrinter sa (epochGrowths g N0)) :
+    ∃ cmd semG, parseCmd toks = some cmd ∧ msSemG cmd N0 = .ok semG
+      ∧ PlainTokens (renderG c sa toks) = true
+      ∧ msSem (renderG c sa toks) N0 = .ok (embedSemV (growthVal sa) N0 semG) := by
+  obtain ⟨_, b2, b3, _, b5⟩ := Proofs.MsGrow.toMs_bridgeV c sa hv hx hN hs htoks hc hsa
+  obtain ⟨semG, hsemG, _⟩ := Proofs.ToMs.msSemG_finalEvs
+    (Proofs.ToMs.clauses_of_valid (Proofs.InGen.inGenerations_valid g hv))
+    (by rw [Proofs.ToMs.expr_inGen]; exact hx) hN samples
+  exact ⟨_, semG, b2, hsemG, b3, (b5 semG hsemG).1⟩
+
+/-- **Acceptance.**  For every valid ms-expressible graph `g` whose pulses are tame (exponential epochs
+allowed), every `N0 > 0`, well-formed `samples`, number codec that covers the numbers of the command and
+growth printer: `from_ms` accepts the command `to_ms` prints, and the graph it returns is valid.  (The new
+ingredients: the epoch bookkeeping of `-g` / `-eg` keeps every size of the form `coef·exp(expo)` with
+`coef > 0`; "growth rate for infinite-length epoch is invalid" cannot happen because the oldest epoch of a deme
+without ancestors is constant, V6/V7, so the last `-eg` of its population prints the rate `0`.) -/
+theorem ms_roundtrip_growth_accepts (c : NumCodec) (sa : Growth → String) {g : Graph} (hv : Spec.validGraph g = true)
+    (hx : MsExpressible g = true) (hpt : PulsesTame g = true) {N0 : Q} (hN : 0 < N0)
+    {samples : Option (List Int)} (hs : samplesOk g samples = true) {toks : List (Tok Growth)}
+    (htoks : toMs g N0 samples = .ok toks) (hc : CodecCovers c toks)
+    (hsa : GrowthPrinter sa (epochGrowths g N0)) :
+    ∃ mg, fromMs (renderG c sa toks) N0 none = .ok mg ∧ Spec.validGraph mg.graph = true := by
+  obtain ⟨mg, h1, _, h3⟩ := Proofs.MsGrow.ms_roundtrip_growth_accepts c sa hv hx hpt hN hs htoks hc hsa
+  exact ⟨mg, h1, h3⟩
+
+/-- **Graph → ms → graph with exponential epochs.**  For every valid ms-expressible graph `g` with tame pulses,
+`N0 > 0`, codec and growth printer as above: `from_ms(to_ms(g, N0), N0)` returns a graph `mg`; the printed command
+has a meaning `sem` under the ms interpreter, equivalent (C08's `semEquiv`) to the observable `rs` of `mg`; with
+`gs` the demography of `normalizeProportions g` (of `g` itself when its ancestry proportions sum to exactly one:
+`to_ms` renormalises), both `sem` and `rs` describe EXACTLY (`SemRefines`: populations, order, lifetimes, sizes at
+every time, migration rates, lineage movements) the demography `regrow (growthVal sa) N0 gs` — `gs` with every
+growth rate replaced by its printed value — and therefore describe `gs` up to the values of the growth rates
+(`SemRefinesUpToGrowth`: `SemRefines` with the size clause asked at the times `exactAt` only). -/
+theorem ms_roundtrip_growth_sem_all (c : NumCodec) (sa : Growth → String) {g : Graph} (hv : Spec.validGraph g = true)
+    (hx : MsExpressible g = true) (hpt : PulsesTame g = true)
+    {N0 : Q} (hN : 0 < N0) {samples : Option (List Int)} (hs : samplesOk g samples = true)
+    {toks : List (Tok Growth)} (htoks : toMs g N0 samples = .ok toks) (hc : CodecCovers c toks)
+    (hsa : GrowthPrinter sa (epochGrowths g N0)) :
+    ∃ mg sem rs gs, fromMs (renderG c sa toks) N0 none = .ok mg
+      ∧ msSem (renderG c sa toks) N0 = .ok sem ∧ resultSem mg = .ok rs
+      ∧ graphSem (inGenerations (normalizeProportions g)) none = .ok gs
+      ∧ semEquiv sem rs = true
+      ∧ SemRefines sem (regrow (growthVal sa) N0 gs) ∧ SemRefines rs (regrow (growthVal sa) N0 gs)
+      ∧ SemRefinesUpToGrowth sem gs ∧ SemRefinesUpToGrowth rs gs :=
+  Proofs.MsGrow.ms_roundtrip_growth_sem_all c sa hv hx hpt hN hs htoks hc hsa
+
+/-- the same against `g` as stored, when its ancestry proportions sum to exactly one -/
+theorem ms_roundtrip_growth_sem (c : NumCodec) (sa : Growth → String) {g : Graph} (hv : Spec.validGraph g = true)
+    (hx : MsExpressible g = true) (hex : ExactProportions g = true) (hpt : PulsesTame g = true)
+    {N0 : Q} (hN : 0 < N0) {samples : Option (List Int)} (hs : samplesOk g samples = true)
+    {toks : List (Tok Growth)} (htoks : toMs g N0 samples = .ok toks) (hc : CodecCovers c toks)
+    (hsa : GrowthPrinter sa (epochGrowths g N0)) :
+    ∃ mg sem rs gs, fromMs (renderG c sa toks) N0 none = .ok mg
+      ∧ msSem (renderG c sa toks) N0 = .ok sem ∧ resultSem mg = .ok rs
+      ∧ graphSem (inGenerations g) none = .ok gs
+      ∧ semEquiv sem rs = true
+      ∧ SemRefines sem (regrow (growthVal sa) N0 gs) ∧ SemRefines rs (regrow (growthVal sa) N0 gs)
+      ∧ SemRefinesUpToGrowth sem gs ∧ SemRefinesUpToGrowth rs gs :=
+  Proofs.MsGrow.ms_roundtrip_growth_sem c sa hv hx hex hpt hN hs htoks hc hsa
+
+/-- **Where the sizes are exact.**  At a time `exactAt` of the lifetime of a population of a graph's demography
+(its segments tile the lifetime and carry no explicit growth rate, as `graphSem` of a valid graph gives them) the
+demography with replaced growth rates has the graph's own size, whatever the printed values (`gv` with
+`gv 0 = 0`): a constant epoch keeps the rate `0`, and the size it starts from is exact as long as no exponential
+epoch came before it since the last `-en`. -/
+theorem regrow_exact_at {gv : Growth → Q} (hz : gv Growth.zero = 0) (N0 : Q) {p : Spec.MsSem.PopSem}
+    (htiles : Proofs.MsRT.Tiles p.lo p.segs p.hi) (hg : ∀ s ∈ p.segs, s.growth = none) {t : Q} (hlo : p.lo ≤ t)
+    (hhi : ETime.fin t < p.hi) (hex : exactAt p t = true) :
+    (Spec.C09.sizeAt p t).isSome = true ∧ Spec.C09.sizeAt (regrowPop gv N0 p) t = Spec.C09.sizeAt p t :=
+  Proofs.MsGrow.exact_sizeAt hz N0 htiles hg hlo hhi hex
+
+/-! ### what is false, with its witnesses (`growHyps sa g N0`, Proofs/MsGrowExamples.lean: every hypothesis of
+`ms_roundtrip_growth_sem_all` with the codec `tableCodec`, decided) -/
+
+/-- **The statement with the sizes of `g` itself (`SemRefines rs gs`) is FALSE**, and so is "every epoch that is
+constant in `g` comes back with exactly its size".  `growBranch1` (deme `A`: constant 1 until 8 generations ago,
+then 1 → 2; deme `B` branching off at 4 with a migration; `N0 = 1`; the rate `ln(2)/2` printed
+`0.34657359027997264`) satisfies every hypothesis; the returned graph has the graph's size at time 0 (second
+component of `roundTripAgainstV`: the sizes of `g` sampled at the given times) but not at time 5, inside the
+exponential epoch, nor at time 9, inside the CONSTANT epoch older than it: the size is continuous at time 8, so
+`to_ms` prints no `-en` there and the constant epoch inherits `2·exp(-α'·2)`, `α'` the printed rate.  Replayed on the
+real library with sizes 300 → 100: the constant epoch comes back as `300.0000000245671`.  The last component lists
+`exactAt` at the times 0, 3, 5, 9 for the two demes. -/
+theorem growth_roundtrip_sizes_counterexample :
+    growHyps Proofs.MsGrow.MigExample.exSa growBranch1 1 = true
+    ∧ (roundTripAgainstV Proofs.MsGrow.MigExample.exSa growBranch1 1 [0]).map (·.2) = some true
+    ∧ (roundTripAgainstV Proofs.MsGrow.MigExample.exSa growBranch1 1 [5]).map (·.2) = some false
+    ∧ (roundTripAgainstV Proofs.MsGrow.MigExample.exSa growBranch1 1 [9]).map (·.2) = some false
+    ∧ ((graphSem (inGenerations growBranch1) none).toOption.map (fun gs =>
+        gs.pops.map (fun p => [0, 3, 5, 9].map (exactAt p)))) = some [[true, false, false, false], [true, true, false, false]] :=
+  Proofs.MsGrow.growth_roundtrip_sizes_counterexample
+
+/-- **"The same epoch boundaries" is false.**  `twoRates` has three epochs with two different rates and continuous
+sizes; with a printer that prints the two rates as the same string every hypothesis holds, `from_ms` sees no
+change of rate at the boundary, and the returned graph has two epochs.  (Replayed on the real library: two
+negative rates that agree to ten decimals — 400 → 200 → 100·(1 + 10⁻¹⁰) — come back as one exponential epoch.) -/
+theorem growth_roundtrip_boundaries_counterexample :
+    growHyps saSame twoRates 1 = true
+    ∧ (twoRates.demes.map (·.epochs.length)) = [3]
+    ∧ (roundTripEpochs saSame twoRates 1).map (fun ds => ds.map (·.length)) = some [2] :=
+  Proofs.MsGrow.growth_roundtrip_boundaries_counterexample
+
+/-- **`GrowthPrinter.zero` is forced.**  With the rate `0` printed as `1.0` every other hypothesis holds for
+`growBranch1`, and `from_ms` rejects the command. -/
+theorem growth_roundtrip_zero_counterexample :
+    Spec.validGraph growBranch1 = true ∧ MsExpressible growBranch1 = true ∧ PulsesTame growBranch1 = true
+    ∧ (epochGrowths growBranch1 1).all (fun G => (match pyFloat (saBadZero G) with | some (.fin _) => true | _ => false)
+          && (match classify (saBadZero G) with | .ok .arg => true | _ => false)) = true
+    ∧ growthVal saBadZero .zero = 1
+    ∧ acceptedV saBadZero growBranch1 1 = false :=
+  Proofs.MsGrow.growth_roundtrip_zero_counterexample
+
+/-- **`GrowthPrinter.congr` is forced** (for the comparison with `regrow`, not for acceptance).  `eqRates` has the
+same rate in its two exponential epochs, computed from different (ratio, span) pairs; `to_ms` prints it once.  A
+printer whose output depends on the pair satisfies everything but `congr`; `from_ms` accepts, and the returned graph
+grows at the printed rate of the recent epoch throughout (first component of `roundTripAgainstV`: the sizes of
+`regrow`, `true` at time 2, `false` at time 8). -/
+theorem growth_roundtrip_congr_counterexample :
+    growthPrinterB saIncongr (epochGrowths eqRates 1) = false
+    ∧ (epochGrowths eqRates 1).all (fun G => (match pyFloat (saIncongr G) with | some (.fin _) => true | _ => false)
+          && (match classify (saIncongr G) with | .ok .arg => true | _ => false)) = true
+    ∧ growthVal saIncongr .zero = 0
+    ∧ acceptedV saIncongr eqRates 1 = true
+    ∧ (roundTripAgainstV saIncongr eqRates 1 [2]).map (·.1) = some true
+    ∧ (roundTripAgainstV saIncongr eqRates 1 [8]).map (·.1) = some false :=
+  Proofs.MsGrow.growth_roundtrip_congr_counterexample
+
+/-! ### non-vacuity of §8 -/
+
+/-- every hypothesis (`growHyps`) holds for: a deme growing 1 → 2 with a second deme branching off and a
+migration (`N0 = 1`; not of constant sizes); a shrinking deme (negative rate, printed in fixed-point form); two
+different rates in a row; the same rate twice -/
+example : growHyps Proofs.MsGrow.MigExample.exSa growBranch1 1 = true ∧ ConstSizes growBranch1 = false := by
+  decide +kernel
+example : growHyps saShrink shrink 1 = true ∧ growHyps saSame twoRates 1 = true ∧ growHyps saLn2 eqRates 1 = true := by
+  decide +kernel
+
+/-- `growHyps` is the list of hypotheses, and the theorems apply -/
+example {sa : Growth → String} {g : Graph} {N0 : Q} (h : growHyps sa g N0 = true) : acceptedV sa g N0 = true :=
+  Proofs.MsGrow.acceptedV_of_hyps h
+example := Proofs.MsGrow.growRoundTrip_of_hyps (sa := Proofs.MsGrow.MigExample.exSa) (g := growBranch1) (N0 := 1)
+  (by decide +kernel)
+
+/-- the printed commands, and the rates read back -/
+example : (toMs growBranch1 1 none).toOption.map (renderG tableCodec Proofs.MsGrow.MigExample.exSa)
+    = some ["-I", "2", "0", "0", "-n", "1", "2.0", "-g", "1", "0.34657359027997264", "-n", "2", "0.5",
+       "-m", "2", "1", "0.5", "-ej", "1.0", "2", "1", "-eg", "2.0", "1", "0.0"] := by decide +kernel
+example : (toMs shrink 1 none).toOption.map (renderG tableCodec saShrink)
+    = some ["-g", "1", "-0.3465735903", "-eg", "2.0", "1", "0.0"]
+    ∧ growthVal saShrink (.sym 2 2) = -3465735903 / 10 ^ 10 := by decide +kernel
+
+/-- the conclusions evaluated independently of the theorems: `from_ms` accepts, and the returned graph — sampled
+at times in every epoch — has the sizes of the graph with the printed growth rates (`regrow`) -/
+example : [acceptedV Proofs.MsGrow.MigExample.exSa growBranch1 1, acceptedV saShrink shrink 1, acceptedV saSame twoRates 1,
+    acceptedV saLn2 eqRates 1] = [true, true, true, true] := by decide +kernel
+example : (roundTripAgainstV Proofs.MsGrow.MigExample.exSa growBranch1 1 [0, 1, 3, 4, 7, 8, 9, 100]).map (·.1) = some true
+    ∧ (roundTripAgainstV saShrink shrink 1 [0, 5, 8, 20]).map (·.1) = some true := by decide +kernel
+
+/-- the graph that comes back for `growBranch1` (end time, start size, end size, size function of every epoch):
+the exponential epoch of `deme1` has exactly the original END size 2 and the symbolic start size
+`2·exp(-0.34657359027997264/4 · 8)`, which the older constant epoch inherits -/
+example : roundTripEpochs Proofs.MsGrow.MigExample.exSa growBranch1 1
+    = some [[(8, ⟨2, -(34657359027997264 / 10 ^ 17) / 4 * 8⟩, ⟨2, -(34657359027997264 / 10 ^ 17) / 4 * 8⟩, "constant"),
+             (0, ⟨2, -(34657359027997264 / 10 ^ 17) / 4 * 8⟩, ⟨2, 0⟩, "exponential")],
+            [(0, ⟨1/2, 0⟩, ⟨1/2, 0⟩, "constant")]] := by decide +kernel
 
 /-! ## Non-vacuity (§§1–5) -/
 
